@@ -132,7 +132,7 @@ func (n *Property) Unmarshall(configValue any) error {
 		if err != nil {
 			return errors.Wrapf(err, "create mapstructure decoder error")
 		}
-		err = decoder.Decode(configValue)
+		err = decoder.Decode(cloneConfigValue(configValue))
 		if err != nil {
 			return errors.Wrapf(err, "mapstructure decode %+v", configValue)
 		}
@@ -158,6 +158,32 @@ func newDecodeConfig(v any, hooks []mapstructure.DecodeHookFunc) *mapstructure.D
 		IgnoreUntaggedFields: false,
 		MatchName:            nil,
 	}
+}
+
+// cloneConfigValue copies the maps and lists of a configuration value: a bound field never shares them with the
+// binder or with another field bound to the same key
+func cloneConfigValue(v any) any {
+	switch x := v.(type) {
+	case map[string]any:
+		c := make(map[string]any, len(x))
+		for k, e := range x {
+			c[k] = cloneConfigValue(e)
+		}
+		return c
+	case map[any]any:
+		c := make(map[any]any, len(x))
+		for k, e := range x {
+			c[k] = cloneConfigValue(e)
+		}
+		return c
+	case []any:
+		c := make([]any, len(x))
+		for i, e := range x {
+			c[i] = cloneConfigValue(e)
+		}
+		return c
+	}
+	return v
 }
 
 func (n *Property) Args() TagArg {
